@@ -36,9 +36,9 @@ def run(ctx):
             r.eq('%s:returns-unit' % nm, fn['output'], '()', site, why='a helper that returns Result could propagate a listener failure into the I/O loop')
             rows = P.table(ctx, fnp, params)
             snd = 'crossbeam_channel::Sender::try_send(slot.%s.Some.0, item)' % fld
-            none = [x for x in rows if x.conds and x.conds[0] == ('slot.' + fld, 'not Some(_)')]
-            okr = [x for x in rows if len(x.conds) >= 2 and x.conds[1][1] == 'Ok(())']
-            fail = [x for x in rows if len(x.conds) >= 2 and x.conds[1][1] != 'Ok(())']
+            none = [x for x in rows if x.conds and x.conds[0] == ('slot.' + fld, 'None')]
+            okr = [x for x in rows if len(x.conds) >= 2 and x.conds[1] == (snd, 'Ok(_)')]
+            fail = [x for x in rows if len(x.conds) >= 2 and x.conds[1] != (snd, 'Ok(_)')]
             r.check('%s:rows' % nm, len(none) == 1 and len(okr) == 1 and len(fail) >= 1, site, built=[x.row() for x in rows])
             r.check('%s:no-listener-discards' % nm, len(none) == 1 and not [e for e in none[0].effects if 'send' in e], site, built=[x.row() for x in none])
             r.check('%s:try_send' % nm, all(x.effects and x.effects[0] == snd for x in okr + fail), site, built=[x.effects[:1] for x in okr + fail], expected=snd)
@@ -46,7 +46,9 @@ def run(ctx):
                     expected='slot.%s = None on Full / Disconnected' % fld)
             if nm != 'try_send_blocked':
                 pats = sorted(x.conds[1][1] for x in fail)
-                r.eq('%s:failure-kinds' % nm, pats, ['Err(crossbeam_channel::TrySendError::Full(_)) | Err(crossbeam_channel::TrySendError::Disconnected(_))'], site)
+                BOTH = 'Err(crossbeam_channel::TrySendError::Full(_)) | Err(crossbeam_channel::TrySendError::Disconnected(_))'
+                r.check('%s:failure-kinds' % nm, pats in ([BOTH], ['Err(_)']) and all(x.conds[1][0] == snd for x in fail), site, built=pats, expected=[BOTH],
+                        why='a full and a disconnected listener queue are both listener failures (the only two kinds of TrySendError)')
         for fnp, setter in (('channel::Channel::listen_for_publisher_confirms', 'io_loop::channel_handle::ChannelHandle::set_pub_confirm_handler'),
                             ('channel::Channel::listen_for_returns', 'io_loop::channel_handle::ChannelHandle::set_return_handler'),
                             ('connection::Connection::listen_for_connection_blocked', 'io_loop::channel_handle::Channel0Handle::set_blocked_tx')):
